@@ -48,13 +48,7 @@ def read_float(x, f32=False):
         return Fraction(int(x))
     ax = abs(x)
     sgn = 1 if x > 0 else -1
-    fr = Fraction(ax).limit_denominator(1000)
-    # within 4 ulp of the rational (values produced by linspace / a few float operations on such rationals)
-    ulp = (float(np.spacing(np.float32(ax))) if f32 else math.ulp(ax))
-    if abs(float(fr) - ax) <= 4 * ulp:
-        if fr.denominator not in (1, 2, 4, 8, 16, 32, 64, 128, 256, 512):
-            READ_RULE_LOG[x] = str(sgn * fr)
-        return sgn * fr
+    # multiples of pi first (355/226 is within one single-precision ulp of pi/2)
     r = _PI_MULT.get(ax)
     if r is not None:
         READ_RULE_LOG[x] = f"{sgn * r}*pi"
@@ -63,6 +57,18 @@ def read_float(x, f32=False):
     if r is not None:
         READ_RULE_LOG[x] = f"{sgn * r}/pi"
         return ("invpi", sgn * r)
+    fr = Fraction(ax).limit_denominator(1000)
+    if f32:
+        # single precision: the value must be THE correctly rounded image of the rational (rationals with denominator
+        # <= 1000 are only ~1e-6 apart, a multi-ulp window would capture arbitrary data)
+        ok = float(np.float32(float(fr))) == ax
+    else:
+        # double precision: within 4 ulp (values produced by linspace / a few float operations on such rationals)
+        ok = abs(float(fr) - ax) <= 4 * math.ulp(ax)
+    if ok:
+        if fr.denominator not in (1, 2, 4, 8, 16, 32, 64, 128, 256, 512):
+            READ_RULE_LOG[x] = str(sgn * fr)
+        return sgn * fr
     return Fraction(x)
 
 
